@@ -17,11 +17,11 @@ Cur == Log[l]
 More == l <= Len(Log)
 
 TraceInit == /\ l = 1 /\ seen = 0
-             /\ A = <<>> /\ trunc = 0 /\ max = 0
+             /\ A = <<>> /\ trunc = 0 /\ max = 0 /\ bad = {}
              /\ pc = "idle" /\ pos = 0 /\ i = 1 /\ read = 0 /\ need = 8 /\ cap = 512 /\ eofPending = FALSE /\ out = <<>>
 
 TReset == /\ More /\ Cur.ev = "reset"
-          /\ A' = Cur.A /\ trunc' = Cur.trunc /\ max' = Cur.max
+          /\ A' = Cur.A /\ trunc' = Cur.trunc /\ max' = Cur.max /\ bad' = {Cur.bad[j] : j \in 1..Len(Cur.bad)}
           /\ pc' = "idle" /\ pos' = 0 /\ i' = 1 /\ read' = 0 /\ need' = 8 /\ cap' = 512 /\ eofPending' = FALSE /\ out' = <<>>
           /\ seen' = 0 /\ l' = l + 1
 
@@ -38,7 +38,7 @@ TRecv == /\ More /\ Cur.ev = "recv"
          /\ Len(out) = seen + 1
          /\ LET o == out[Len(out)] IN
               /\ o[3] = Cur.consumed
-              /\ IF Cur.res = "msg" THEN o[1] = "msg" /\ o[2] = Cur.id
+              /\ IF Cur.res \in {"msg", "bad"} THEN o[1] = Cur.res /\ o[2] = Cur.id
                  ELSE /\ o[1] = "err"
                       /\ o[2] = "toobig" => (Cur.kind = "toobig" /\ ~Cur.big)    \* rejected without buffering the announced size
                       /\ o[2] # "toobig" => Cur.kind = "eof"
